@@ -374,7 +374,8 @@ func (w WS) Expect() (outs map[string]map[string]OutFile, bodies map[string]stri
 			m[t.OutPath(t.sharedPath())] = OutFile{Content: "the same bytes in every target\n"}
 		}
 		if t.Bin != "" {
-			m[t.OutPath(t.Bin)] = OutFile{Content: "#!/bin/sh\ncat <<'EOF_BODY'\n" + body + "EOF_BODY\n", Exec: true}
+			// the here-document delimiter is unique per target: a body may embed the script of a dependency
+			m[t.OutPath(t.Bin)] = OutFile{Content: "#!/bin/sh\ncat <<'EOF_" + t.ID() + "'\n" + body + "EOF_" + t.ID() + "\n", Exec: true}
 		}
 		for _, d := range t.OutDirs {
 			root := t.OutPath(d)
@@ -479,7 +480,7 @@ func (w WS) Command(t *Target) string {
 		fmt.Fprintf(&b, "mkdir -p \"$(dirname %s)\"; rm -rf %s; printf 'the same bytes in every target\\n' > %s; chmod 644 %s\n", sp, sp, sp, sp)
 	}
 	if t.Bin != "" {
-		fmt.Fprintf(&b, "mkdir -p \"$(dirname %s)\"; rm -rf %s; { printf '#!/bin/sh\\ncat <<'\"'\"'EOF_BODY'\"'\"'\\n'; cat \"$body\"; printf 'EOF_BODY\\n'; } > %s\n", shQuote(t.Bin), shQuote(t.Bin), shQuote(t.Bin))
+		fmt.Fprintf(&b, "mkdir -p \"$(dirname %s)\"; rm -rf %s; { printf '#!/bin/sh\\ncat <<'\"'\"'EOF_%s'\"'\"'\\n'; cat \"$body\"; printf 'EOF_%s\\n'; } > %s\n", shQuote(t.Bin), shQuote(t.Bin), id, id, shQuote(t.Bin))
 	}
 	for _, d := range t.OutDirs {
 		q := shQuote(d)
